@@ -208,9 +208,16 @@ Proof.
   destruct V; [apply Hgo|]. unfold DHEADER. cbv zeta. now rewrite !Hgo.
 Qed.
 
+Lemma le_enc_mod' : forall n z z', z mod pow256 n = z' mod pow256 n -> le_enc n z = le_enc n z'.
+Proof. intros. rewrite <- (le_enc_mod n z), <- (le_enc_mod n z'). now rewrite H. Qed.
+Lemma int_enc_mod16 : forall E z z', z mod 65536 = z' mod 65536 -> int_enc E 2 z = int_enc E 2 z'.
+Proof.
+  intros E z z' H. change 65536 with (pow256 2) in H. destruct E; cbn [int_enc]; now rewrite (le_enc_mod' 2 z z' H).
+Qed.
+
 Definition mem_spec (V : ver) (E : endian) (ms : list (minfo * ty)) (d : dyn) : Prop :=
   nodup_z (ids ms) = true /\
-  (V = V1 -> Forall (fun mt => m_opt (fst mt) = false) ms) /\
+  (V = V1 -> Forall (fun mt : minfo * ty => m_opt (fst mt) = true -> 0 <= m_id (fst mt) < 16384) ms) /\
   Forall (fun mt : minfo * ty =>
     match lookup (m_id (fst mt)) d with
     | Some v => agrees (ser_ty V E (snd mt) v) (spec_ty V E (snd mt) v)
@@ -226,7 +233,31 @@ Proof.
   unfold ser_fmember, MEMBER. rewrite find_cvS by assumption. cbn [fst].
   destruct (m_opt (fst mt)) eqn:Hopt.
   - destruct V.
-    { pose proof (Hopt1 eq_refl) as Ho. rewrite Forall_forall in Ho. specialize (Ho mt Hin). congruence. }
+    { (* XCDR1: parameter with short header *)
+      pose proof (Hopt1 eq_refl) as Ho. rewrite Forall_forall in Ho. specialize (Ho mt Hin Hopt).
+      unfold ser_opt_fmember, ser_mmember1, PLMEMBER. rewrite find_cvS by assumption. cbv zeta.
+      replace (16384 <=? m_id (fst mt)) with false by (symmetry; apply Z.leb_gt; lia).
+      assert (Hpl : 0 <= padlen pos 4 < 4) by (apply padlen_range; lia).
+      assert (Hq : (pos + blen (zeros (padlen pos 4))) mod 2 = 0).
+      { rewrite blen_zeros by lia. pose proof (padlen_aligned pos 4 ltac:(lia)). lia. }
+      unfold ser_prim, ret. rewrite even_align2 by exact Hq. cbn [app bind prim_bytes sk_bytes].
+      assert (Hbody : match lookup (m_id (fst mt)) d with
+                      | Some _ => unwrap (ser_value (cvS V1 E ms) d (m_id (fst mt)) 0)
+                      | None => Ok ([], 0)
+                      end =
+                      Ok (match lookup (m_id (fst mt)) d with Some v => spec_ty V1 E (snd mt) v 0 | None => [] end,
+                          blen (match lookup (m_id (fst mt)) d with Some v => spec_ty V1 E (snd mt) v 0 | None => [] end))).
+      { destruct (lookup (m_id (fst mt)) d) as [v|] eqn:Hv; [|reflexivity].
+        unfold ser_value. rewrite find_cvS by assumption. unfold get. rewrite Hv. cbn [bind].
+        rewrite Hmem. cbn [unwrap]. f_equal. }
+      rewrite Hbody. cbn [bind].
+      set (body := match lookup (m_id (fst mt)) d with Some v => spec_ty V1 E (snd mt) v 0 | None => [] end).
+      assert (Hal : ALIGN V1 4 pos = zeros (padlen pos 4)).
+      { rewrite align_eq by tauto. reflexivity. }
+      rewrite Hal.
+      rewrite (int_enc_mod16 E (wrap_u16 (blen body)) (blen body)).
+      2:{ unfold wrap_u16. apply Z.mod_mod. lia. }
+      f_equal. f_equal. rewrite !blen_app, !int_enc_blen, blen_zeros by lia. lia. }
     unfold ser_opt_fmember.
     destruct (lookup (m_id (fst mt)) d) as [v|] eqn:Hv.
     + pose proof (ser_prim_spec V2 E PBool 1 pos eq_refl) as Hb.
@@ -341,16 +372,22 @@ Proof.
     destruct v as [| |d| | |]; try (cbn [wt] in Hw; discriminate).
     cbn [wt] in Hw. apply andb_prop in Hw as [Hw Hgo]. apply andb_prop in Hw as [Hs Hk].
     apply wt_members in Hgo.
+    assert (Hids : forallb id_ok (ids ms) = true).
+    { unfold common in Hg. apply andb_prop in Hg as [Hwf _]. cbn [wf_ty] in Hwf.
+      apply andb_prop in Hwf as [Hwf _]. now apply andb_prop in Hwf as [_ Hwf]. }
     unfold cbad in Hb. apply orb_false_elim in Hb as [Hb Hb3]. apply orb_false_elim in Hb as [Hb _].
     apply orb_false_elim in Hb as [_ Hmut].
     assert (Hx : x <> Mutable) by (intros ->; discriminate).
     assert (HH : mem_spec V E ms d).
     { split; [exact Hnd|]. split.
-      - intros ->. cbn [has_opt_member] in Hb3.
-        apply Forall_forall. intros mt Hin.
-        destruct (m_opt (fst mt)) eqn:Hm; [|reflexivity].
-        assert (existsb (fun mx : minfo * ty => m_opt (fst mx)) ms = true)
-          by (apply existsb_exists; now exists mt).
+      - intros ->. apply orb_false_elim in Hb3 as [_ Hpl]. cbn [pl_long] in Hpl.
+        apply Forall_forall. intros mt Hin Hopt.
+        rewrite forallb_forall in Hids.
+        pose proof (Hids (m_id (fst mt)) ltac:(unfold ids; apply in_map_iff; now exists mt)) as Hi.
+        unfold id_ok in Hi. apply andb_prop in Hi as [Hi0 _]. apply Z.leb_le in Hi0.
+        destruct (Z.leb_spec 16384 (m_id (fst mt))) as [Hge|]; [|lia].
+        assert (existsb (fun mx : minfo * ty => m_opt (fst mx) && (16384 <=? m_id (fst mx))) ms = true).
+        { apply existsb_exists. exists mt. split; [exact Hin|]. rewrite Hopt. cbn [andb]. now apply Z.leb_le. }
         congruence.
       - rewrite Forall_forall in *. intros mt Hin.
         specialize (H mt Hin). specialize (Hgm mt Hin). specialize (Hgo mt Hin).
@@ -385,17 +422,18 @@ Proof.
   unfold tgood. rewrite Hwf. cbn [andb]. apply negb_true_iff.
   apply (ty_any_mono (cbad V) (tbad V)); [|exact Ha].
   intros t0 Hq. unfold tbad, cbad in *. destruct V, (is_union t0), (is_mutable t0), (is_wstr t0),
-    (has_opt_member t0); cbn in *; congruence.
+    (opt_empty_trap t0), (pl_long t0); cbn in *; congruence.
 Qed.
 
-(* the deserializer accepts what the specification encoder produces *)
+(* the deserializer accepts what the specification encoder produces (within the size limit) *)
 Theorem spec_decodable : forall V E t v,
   is_aggr t = true -> common V t = true -> wt t v = true ->
+  blen (spec_encode V E t v) <= size_limit V t ->
   decode t (spec_encode V E t v) = Ok v.
 Proof.
-  intros V E t v Ha Hc Hw.
+  intros V E t v Ha Hc Hw Hl.
   destruct (roundtrip_tgood V E t v Ha (common_tgood V t Hc) Hw) as [bs [He Hd]].
-  rewrite (code_eq_spec V E t v Ha Hc Hw) in He. inversion He. now subst.
+  rewrite (code_eq_spec V E t v Ha Hc Hw) in He. inversion He. subst bs. now destruct (Hd Hl).
 Qed.
 
 (* ---------------------------------------------------------------- differences (our reading) *)
@@ -409,46 +447,48 @@ Ltac dif :=
 (* wide string "a": implementation 02 00 00 00 'a' 00 NUL NUL; rule (4) as read: 02 00 00 00 'a' 00 *)
 Lemma diff_wstring : differs V2 LE (TStruct Final [(mk 0, TWStr)]) (VData [(0, VStr [97])]).
 Proof. dif. Qed.
-(* XCDR1 {@optional octet 1; uint64 2}: after the parameter the implementation keeps aligning from the
-   member's origin (7 padding octets), the rule pops the origin (3 padding octets) *)
-Lemma diff_xcdr1_optional_origin :
-  differs V1 LE (TStruct Final [(mko 0, TPrim PU8); (mk 1, TPrim PU64)])
-          (VData [(0, VP KU8 1); (1, VP KU64 2)]).
-Proof. dif. Qed.
 
 (* ---------------------------------------------------------------- outside the classes *)
-Lemma class0_common : forall V t v, wf_ty t = true -> stage2 t = true -> c10_class V t v = 0%N ->
-  common V t = true.
+Lemma class0_common : forall V t v, wf_ty t = true -> sup V t = true ->
+  c10_class V t v = 0%N -> known_class V t v = 0%N -> common V t = true.
 Proof.
-  intros V t v Hwf Hs Hk. unfold c10_class in Hk.
+  intros V t v Hwf Hsup Hk Hk9. unfold c10_class in Hk.
   destruct (ty_any is_wstr t) eqn:Hw; [discriminate|].
+  unfold known_class in Hk9.
+  destruct (stage2 t) eqn:Hs; [|discriminate]. cbn [negb] in Hk9.
   unfold stage2 in Hs. apply negb_true_iff in Hs.
   rewrite ty_any_or in Hs. apply orb_false_elim in Hs as [Hs1 Hs2].
   unfold common. rewrite Hwf. cbn [andb]. apply negb_true_iff.
-  destruct V; cbn [andb] in Hk.
-  - destruct (ty_any has_opt_member t) eqn:Ho; [discriminate|].
+  destruct V; cbn [andb] in Hk9.
+  - destruct (ty_any opt_empty_trap t) eqn:Hz; [discriminate|].
+    unfold sup in Hsup. apply negb_true_iff in Hsup.
     rewrite (ty_any_ext (cbad V1)
-      (fun t => ((is_union t || is_mutable t) || is_wstr t) || has_opt_member t)) by reflexivity.
-    now rewrite !ty_any_or, Hs1, Hs2, Hw, Ho.
+      (fun t => ((is_union t || is_mutable t) || is_wstr t) || (opt_empty_trap t || pl_long t))) by reflexivity.
+    now rewrite !ty_any_or, Hs1, Hs2, Hw, Hz, Hsup.
   - rewrite (ty_any_ext (cbad V2)
       (fun t => ((is_union t || is_mutable t) || is_wstr t) || (fun _ => false) t)) by reflexivity.
     now rewrite !ty_any_or, Hs1, Hs2, Hw, ty_any_false.
 Qed.
 
 Theorem c10_outside_classes : forall V E t v,
-  is_aggr t = true -> wf_ty t = true -> stage2 t = true -> wt t v = true -> c10_class V t v = 0%N ->
-  encode V E t v = Ok (spec_encode V E t v) /\ decode t (spec_encode V E t v) = Ok v.
+  is_aggr t = true -> wf_ty t = true -> sup V t = true -> wt t v = true ->
+  c10_class V t v = 0%N -> known_class V t v = 0%N ->
+  encode V E t v = Ok (spec_encode V E t v) /\
+  (blen (spec_encode V E t v) <= size_limit V t -> decode t (spec_encode V E t v) = Ok v).
 Proof.
-  intros V E t v Ha Hwf Hs Hw Hk.
-  pose proof (class0_common V t v Hwf Hs Hk) as Hc.
-  split; [now apply code_eq_spec|now apply spec_decodable].
+  intros V E t v Ha Hwf Hsup Hw Hk Hk9.
+  pose proof (class0_common V t v Hwf Hsup Hk Hk9) as Hc.
+  split; [now apply code_eq_spec|intros; now apply spec_decodable].
 Qed.
 
-(* the inputs of the two repaired differences: the encoders agree and the value comes back *)
+(* the inputs of the repaired differences: the encoders agree and the value comes back *)
 Lemma regression_c10 :
   (let t := TStruct Final [(mk 0, TPrim PChar8)] in let v := VData [(0, VP KChar8 233)] in
    encode V2 LE t v = Ok (spec_encode V2 LE t v) /\ decode t (spec_encode V2 LE t v) = Ok v) /\
   (let t := TStruct Final [(mk 0, TPrim PU64); (mk 1, TPrim PF128)] in
    let v := VData [(0, VP KU64 7); (1, VP KF128 9)] in
-   encode V1 BE t v = Ok (spec_encode V1 BE t v) /\ decode t (spec_encode V1 BE t v) = Ok v).
+   encode V1 BE t v = Ok (spec_encode V1 BE t v) /\ decode t (spec_encode V1 BE t v) = Ok v) /\
+  (let t := TStruct Final [(mko 0, TPrim PU8); (mk 1, TPrim PU64)] in
+   let v := VData [(0, VP KU8 1); (1, VP KU64 2)] in
+   encode V1 LE t v = Ok (spec_encode V1 LE t v) /\ decode t (spec_encode V1 LE t v) = Ok v).
 Proof. cbv zeta. repeat split; vm_compute; reflexivity. Qed.
